@@ -46,6 +46,14 @@ func (h *sampleHeap) Get(index int) sampleHeapItem {
 	return (*h)[index]
 }
 
+// lnWeight is ln(w) computed from the normalised fraction and the binary exponent: math.Log itself
+// is inaccurate for subnormal arguments (all of them give about -709 on amd64), which made
+// subnormal weights indistinguishable from each other
+func lnWeight(w float64) float64 {
+	var frac, exp = math.Frexp(w)
+	return math.Log(frac) + float64(exp)*math.Ln2
+}
+
 // 参考文献：http://lotabout.me/2018/Weighted-Random-Sampling
 // 加权采样，返回索引下标
 func WeightedSampling(sampleNum int, totalNum int, getWeight func(int) float64) []int {
@@ -63,7 +71,7 @@ func WeightedSampling(sampleNum int, totalNum int, getWeight func(int) float64) 
 	for i := 0; i < totalNum; i++ {
 		ui := rand.Float64()
 		// ln(w) - ln(-ln(u)) is order-isomorphic to u^(1/w) but cannot underflow for tiny weights
-		ki := math.Log(getWeight(i)) - math.Log(-math.Log(ui))
+		ki := lnWeight(getWeight(i)) - math.Log(-math.Log(ui))
 
 		if h.Len() < sampleNum {
 			heap.Push(&h, sampleHeapItem{ki: ki, index: i})
